@@ -139,11 +139,11 @@ Theorem C04_error_sticky : forall orc reg fx fuel sh s,
 Proof. intros. apply allR_all_states. apply allR_dec_val. Qed.
 Print Assumptions C04_error_sticky.
 Theorem C04_error_sticky_service : forall orc reg fx fuel ms missing bs,
-  all_states (R (init bs false)) (service_decode orc reg fx fuel ms missing bs).
+  all_states (R (start fx bs false)) (service_decode orc reg fx fuel ms missing bs).
 Proof. intros. apply allR_all_states. apply allR_service_decode. Qed.
 Print Assumptions C04_error_sticky_service.
 Theorem C04_error_sticky_client : forall orc reg fx fuel rts bs,
-  all_states (R (init bs false)) (client_decode orc reg fx fuel rts bs).
+  all_states (R (start fx bs false)) (client_decode orc reg fx fuel rts bs).
 Proof. intros. apply allR_all_states. apply allR_client_decode. Qed.
 Print Assumptions C04_error_sticky_client.
 
@@ -200,6 +200,26 @@ Theorem C04_terminates_linear_partial : forall c bs s', within c bs s' -> excess
   (Z.of_N (steps s') <= K * (Z.of_nat (length bs) + 1) + c)%Z.
 Proof. exact within_no_excess. Qed.
 Print Assumptions C04_terminates_linear_partial.
+
+(* With element loops that stop at the first decode error (fx_loop: the repaired decoder) nothing ever
+   spins, for ANY input: time is linear in the input without any guard, and the cost that nested
+   containers could build up after the input ended (depth x count iterations) is gone. *)
+Theorem C04_no_spin_when_loops_stop : forall orc reg fx fuel bs smp sh, fx_loop fx = true ->
+  all_states (fun s' => spin s' = 0%N) (unmarshal orc reg fx fuel bs smp sh).
+Proof. exact unmarshal_no_spin. Qed.
+Print Assumptions C04_no_spin_when_loops_stop.
+Theorem C04_no_spin_when_loops_stop_service : forall orc reg fx fuel ms missing bs, fx_loop fx = true ->
+  all_states (fun s' => spin s' = 0%N) (service_decode orc reg fx fuel ms missing bs).
+Proof. exact service_no_spin. Qed.
+Print Assumptions C04_no_spin_when_loops_stop_service.
+Theorem C04_no_spin_when_loops_stop_client : forall orc reg fx fuel rts bs, fx_loop fx = true ->
+  all_states (fun s' => spin s' = 0%N) (client_decode orc reg fx fuel rts bs).
+Proof. exact client_no_spin. Qed.
+Print Assumptions C04_no_spin_when_loops_stop_client.
+Theorem C04_terminates_linear_repaired : forall orc reg fx fuel bs smp sh, fx_loop fx = true -> enough fuel bs ->
+  all_states (fun s' => (Z.of_N (steps s') <= K * (Z.of_nat (length bs) + 1) + 1)%Z) (unmarshal orc reg fx fuel bs smp sh).
+Proof. exact unmarshal_linear_when_loops_stop. Qed.
+Print Assumptions C04_terminates_linear_repaired.
 
 (* ---- C04_alloc_linear ---- *)
 
